@@ -4,8 +4,40 @@ import (
 	"fmt"
 	"strings"
 
+	"golang.org/x/text/encoding/charmap"
+
 	"verif/simkit"
 )
+
+// the ASCII-compatible 8-bit charsets exercised besides UTF-8
+var charmaps = map[string]*charmap.Charmap{
+	"windows-1252": charmap.Windows1252,
+	"ISO-8859-15":  charmap.ISO8859_15,
+	"ISO-8859-2":   charmap.ISO8859_2,
+	"windows-1251": charmap.Windows1251,
+	"KOI8-R":       charmap.KOI8R,
+}
+
+func encodeRune(r rune, enc string) (byte, bool) {
+	switch enc {
+	case "ISO-8859-1":
+		// the charset reader maps this label to windows-1252 (WHATWG); only the
+		// range on which both agree is used
+		if r < 0x80 || (r >= 0xA0 && r <= 0xFF) {
+			return byte(r), true
+		}
+		return 0, false
+	case "US-ASCII":
+		return byte(r), r < 0x80
+	}
+	if cm, ok := charmaps[enc]; ok {
+		if r < 0x80 {
+			return byte(r), true
+		}
+		return cm.EncodeRune(r)
+	}
+	return 0, false
+}
 
 // XMLGenConfig is the per-run swarm configuration of the XML generator.
 type XMLGenConfig struct {
@@ -45,7 +77,7 @@ func DrawXMLConfig(t *simkit.Tape) XMLGenConfig {
 	c.LangBias = t.Bool(1, 5)
 	c.Wide = t.Bool(1, 8)
 	if c.XMLDecl {
-		c.Encoding = []string{"", "UTF-8", "ISO-8859-1", "windows-1252", "US-ASCII"}[t.Pick(3, 2, 1, 1, 1)]
+		c.Encoding = []string{"", "UTF-8", "ISO-8859-1", "windows-1252", "US-ASCII", "ISO-8859-15", "ISO-8859-2", "windows-1251", "KOI8-R"}[t.Pick(6, 4, 2, 2, 2, 1, 1, 1, 1)]
 	}
 	return c
 }
@@ -63,21 +95,30 @@ type xmlGen struct {
 }
 
 func encodable(r rune, enc string) bool {
-	switch enc {
-	case "ISO-8859-1", "windows-1252":
-		return r < 0x80 || (r >= 0xA0 && r <= 0xFF)
-	case "US-ASCII":
-		return r < 0x80
+	if enc == "" || enc == "UTF-8" {
+		return true
 	}
-	return true
+	_, ok := encodeRune(r, enc)
+	return ok
 }
 
 func (g *xmlGen) name() string {
 	if g.cfg.NonASCII && g.cfg.Encoding != "US-ASCII" && g.t.Bool(1, 6) {
-		if g.cfg.Encoding == "ISO-8859-1" || g.cfg.Encoding == "windows-1252" {
-			return []string{"é", "ñame"}[g.t.Draw(2)]
+		cands := []string{}
+		for _, n := range []string{"é", "ñame", "日本", "Łódź", "жук", "Šo"} {
+			ok := true
+			for _, r := range n {
+				if !encodable(r, g.cfg.Encoding) {
+					ok = false
+				}
+			}
+			if ok {
+				cands = append(cands, n)
+			}
 		}
-		return localPoolNA[g.t.Draw(len(localPoolNA))]
+		if len(cands) > 0 {
+			return cands[g.t.Draw(len(cands))]
+		}
 	}
 	return localPool[g.t.Draw(len(localPool))]
 }
@@ -127,7 +168,13 @@ func GenXML(t *simkit.Tape, cfg XMLGenConfig) *Node {
 	if cfg.Pad > 0 {
 		fill := "p"
 		if cfg.NonASCII && cfg.Encoding != "US-ASCII" {
-			fill = "é" // one byte in the 8-bit charsets, two in UTF-8: buffer boundaries fall inside decoded characters
+			// one byte in the 8-bit charsets, two in UTF-8: buffer boundaries fall inside decoded characters
+			for _, c := range []string{"é", "ж", "Ł"} {
+				if encodable([]rune(c)[0], cfg.Encoding) {
+					fill = c
+					break
+				}
+			}
 		}
 		root.Children = append(root.Children, &Node{Kind: KComment, Value: strings.Repeat(fill, cfg.Pad/len(fill))})
 	}
@@ -544,8 +591,17 @@ func SerialiseXML(t *simkit.Tape, cfg XMLGenConfig, root *Node) *Serialised {
 			case 1:
 				label = strings.ToLower(label)
 			case 2:
-				if label == "ISO-8859-1" {
+				switch label {
+				case "ISO-8859-1":
 					label = "latin1"
+				case "windows-1252":
+					label = "cp1252"
+				case "ISO-8859-2":
+					label = "latin2"
+				case "windows-1251":
+					label = "cp1251"
+				case "KOI8-R":
+					label = "koi8"
 				}
 			}
 			q := []string{`"`, `'`}[t.Draw(2)]
@@ -590,7 +646,7 @@ func SerialiseXML(t *simkit.Tape, cfg XMLGenConfig, root *Node) *Serialised {
 	text := s.b.String()
 	// transcode
 	switch cfg.Encoding {
-	case "ISO-8859-1", "windows-1252", "US-ASCII":
+	case "ISO-8859-1", "windows-1252", "US-ASCII", "ISO-8859-15", "ISO-8859-2", "windows-1251", "KOI8-R":
 		// offsets must be recomputed: every rune becomes one byte
 		bs := make([]byte, 0, len(text))
 		conv := func(off int) int { return len([]rune(text[:off])) }
@@ -599,10 +655,11 @@ func SerialiseXML(t *simkit.Tape, cfg XMLGenConfig, root *Node) *Serialised {
 			out.Epilog[i] = Ext{conv(out.Epilog[i].Start), conv(out.Epilog[i].End)}
 		}
 		for _, r := range text {
-			if r > 0xFF {
+			b, ok := encodeRune(r, cfg.Encoding)
+			if !ok {
 				panic(fmt.Sprintf("serialiser bug: rune %U not encodable in %s", r, cfg.Encoding))
 			}
-			bs = append(bs, byte(r))
+			bs = append(bs, b)
 		}
 		out.Bytes = bs
 	default:
